@@ -192,8 +192,10 @@ Fixpoint jtext (v : jv) : str :=
   | JDict d => c_lbrace :: join_with c_comma (map (fun kv => let '(k, x) := kv in c_quote :: esc_json k ++ c_quote :: 58 :: jtext x) d) ++ [c_rbrace]
   end.
 
-(* SQLiteBuilder.JSON_NONZERO :  expr NOT IN ('null', 'false', '0', 'DQDQ', '[]', '{}')  on the JSON text of the value *)
-Definition falsy_texts : list str := [t_null; t_false; [48]; [c_quote; c_quote]; [c_lbr; c_rbr]; [c_lbrace; c_rbrace]].
+(* SQLiteBuilder.JSON_NONZERO :  expr NOT IN ('null', 'false', '0', '0.0', '-0.0', 'DQDQ', '[]', '{}')  on the JSON text of the value
+   (0.0 and -0.0, the texts json.dumps writes for float zeros, were added by fix 8c0b3e1) *)
+Definition falsy_texts : list str :=
+  [t_null; t_false; [48]; [48; c_dot; 48]; [c_minus; 48; c_dot; 48]; [c_quote; c_quote]; [c_lbr; c_rbr]; [c_lbrace; c_rbrace]].
 Definition json_nonzero (v : jv) : bool := negb (existsb (str_eqb (jtext v)) falsy_texts).
 
 Definition py_truthy (v : jv) : bool :=
@@ -207,6 +209,24 @@ Definition py_truthy (v : jv) : bool :=
 
 Definition zero_float (v : jv) : bool :=
   match v with JFloat _ ip fp => (ip =? 0) && forallb (fun c => c =? 48) fp | _ => false end.
+(* a float zero spelled otherwise than json.dumps spells it (0.00, 0.000 ..): only a document written by something else can hold it *)
+Definition odd_zero_float (v : jv) : bool :=
+  match v with JFloat _ ip fp => zero_float v && negb (str_eqb fp [48]) | _ => false end.
+Definition float_wf (v : jv) : bool := match v with JFloat _ ip _ => 0 <=? ip | _ => true end.
+
+(* PostgreSQL (documented semantics, not executed):  coalesce(expr, 'null') NOT IN ('null', 'false', '0', DQDQ, '[]', '{}')  over jsonb,
+   whose equality compares numbers numerically (0.0 = 0) and containers structurally *)
+Definition pg_jsonb_falsy (v : jv) : bool :=
+  match v with
+  | JNull => true
+  | JBool b => negb b
+  | JInt z => z =? 0
+  | JFloat _ ip fp => (ip =? 0) && forallb (fun c => c =? 48) fp
+  | JStr s => match s with [] => true | _ => false end
+  | JList l => match l with [] => true | _ => false end
+  | JDict d => match d with [] => true | _ => false end
+  end.
+Definition pg_json_nonzero (v : jv) : bool := negb (pg_jsonb_falsy v).
 
 (* py_json_array_length / json_array_length: len(expr) if type(expr) is list else 0 ;  Python: len() *)
 Definition json_array_length (v : jv) : Z := match v with JList l => zlen l | _ => 0 end.
@@ -236,10 +256,12 @@ Definition arr_get (l : list A) (i : Z) : option A :=
   let n := zlen l in
   if (i <? - n) || (n <=? i) then None else nth_error l (Z.to_nat (if i <? 0 then i + n else i)).
 
-(* the SQLite code path (from_one = False): arr[v] and arr[a:b] as the query computes them *)
-Definition sqlite_array_index (l : list A) (v : Z) : option A := arr_get l (index_const 0 (zlen l) v).
+(* the SQLite code path (from_one = False): since fix 3338ea9 ArrayMixin._index hands the index / bound over unchanged and
+   py_array_index / py_array_slice index the decoded list themselves *)
+Definition index_sqlite (len v : Z) : Z := v.
+Definition sqlite_array_index (l : list A) (v : Z) : option A := arr_get l (index_sqlite (zlen l) v).
 Definition sqlite_array_slice (l : list A) (a b : option Z) : list A :=
-  py_slice l (option_map (index_const 0 (zlen l)) a) (option_map (index_const 0 (zlen l)) b).
+  py_slice l (option_map (index_sqlite (zlen l)) a) (option_map (index_sqlite (zlen l)) b).
 
 (* PostgreSQL (documented semantics, not executed): 1-based subscripts; out of range -> NULL; slices are inclusive and clamped *)
 Definition pg_subscript (l : list A) (i : Z) : option A := if (i <? 1) || (zlen l <? i) then None else nth_error l (Z.to_nat (i - 1)).
@@ -251,10 +273,6 @@ Definition pg_array_index (l : list A) (v : Z) : option A := pg_subscript l (ind
 Definition pg_array_slice (l : list A) (a b : option Z) : list A :=
   pg_slice l (option_map (index_const 1 (zlen l)) a) (option_map (index_const 0 (zlen l)) b).
 End Arr.
-
-(* the inputs on which the SQLite path is known to be wrong: an index / bound below -len that the second wrap brings back in range *)
-Definition wraps_twice (len v : Z) : Prop := - 2 * len <= v < - len.
-Definition bound_ok (len : Z) (x : option Z) : Prop := match x with None => True | Some v => v >= - len \/ v <= - 2 * len end.
 
 (* ------------------------------------------------------------------ for the correspondence run *)
 Fixpoint pkeys_eqb (a b : list pkey) : bool :=
